@@ -20,7 +20,7 @@ TITLE_ATOMS = [
     "A", "B", "C", "Model description", "a b", " x ", "x ", "\tt", "n\n", "é", "日本", "\U0001F600",
     "\\/", "a\\/b", "\\/a", "a\\/", "\\", "a\\", "\x1f", "a\x1fb", "\x1fa", " ", " z", "#h", "- l",
     "", " ", "A", "B",
-    "a  b", "a\u00a0b", "a\tb", "x\u3000y", "95\u202f%", "two  spaces  twice",
+    "a  b", "a\u00a0b", "a\tb", "x\u3000y", "95\u202f%", "two  spaces  twice", "R² per fold", "F₁ \\/ F₂", "µs", "…", "™", "Ａ", "e\u0301",
 ]
 
 
@@ -52,6 +52,13 @@ class StubModel:
 
     def __repr__(self):
         return "StubModel()"
+
+
+class EmptyLenModel(StubModel):
+    """an estimator whose truth value is False although it has parameters (Pipeline([]) has __len__ 0)"""
+
+    def __len__(self):
+        return 0
 
 
 class patched_table:
@@ -192,7 +199,8 @@ def gen_op(rng, known, weights):
     if kind == "add_hyperparams":
         names = rng.sample(["alpha", "C", "est__n", "fit_intercept", "é"], rng.randint(0, 4))
         items = [[n, rng.choice([1, 0.1, None, True, "l2", "a\nb"])] for n in names]
-        return dict(op="card.add_hyperparams", section=gen_path(rng, known), description=gen_opt(rng, ["hdesc"]), items=items)
+        return dict(op="card.add_hyperparams", section=gen_path(rng, known), description=gen_opt(rng, ["hdesc"]), items=items,
+                    falsy_model=rng.random() < 0.3)
     if kind == "select":
         return dict(op="card.select", key=gen_path(rng, known))
     if kind == "select_chain":
@@ -292,6 +300,7 @@ def model_view(op):
         o.pop("as_df", None)
     if o["op"] in ("card.add_metrics", "card.add_hyperparams"):
         o["items"] = [[k, _cell(v)] for k, v in o["items"]]
+        o.pop("falsy_model", None)
     return o
 
 
@@ -322,6 +331,9 @@ def exec_op(card, op):
             card.add_metrics(section=op["section"], description=op["description"], **{k: v for k, v in op["items"]})
             return dict(r="ok")
         if name == "add_hyperparams":
+            if op.get("falsy_model"):
+                card.model = EmptyLenModel()
+                card.__dict__.pop("_model", None)      # the card caches the loaded model; get_model() drops it the same way
             card.model.params = {k: v for k, v in op["items"]}
             card.add_hyperparams(section=op["section"], description=op["description"])
             return dict(r="ok")
